@@ -1191,3 +1191,6 @@ RULES = [
     ("C01.ENTROPYNORM", 3, rule_entropynorm),
     ("C01.NCEFORM", 5, rule_nceform_shared),
 ]
+
+from . import common as _common_purity
+RULES = RULES + _common_purity.purity_rules("C01")
